@@ -74,15 +74,16 @@ theorem resolveFixups_resp (toSec toOff : Nat) (fs : List Fixup) : Resp (fun h =
           exact ⟨this.1, congrArg (fun t : Nat × List Fixup × String => (t.1, f :: t.2.1, "InvalidDisplacement")) this.2⟩
 
 theorem obs_eq_iff (a b : Holder) : a.obs = b.obs ↔
-    a.arch = b.arch ∧ a.secs = b.secs ∧ a.labels = b.labels ∧ a.relocs = b.relocs ∧ a.unres = b.unres ∧ a.attached = b.attached := by
+    a.arch = b.arch ∧ a.secs = b.secs ∧ a.labels = b.labels ∧ a.relocs = b.relocs ∧ a.unres = b.unres ∧ a.attached = b.attached ∧
+      a.base = b.base ∧ a.initBase = b.initBase := by
   cases a; cases b; simp [Holder.obs]
 
 theorem setUnres_congr (H1 H2 : Holder) (n1 n2 : Nat) (h : H1.obs = H2.obs) (hn : n1 = n2) :
     ({ H1 with unres := H1.unres - n1 } : Holder).obs = ({ H2 with unres := H2.unres - n2 } : Holder).obs := by
   subst hn
   rw [obs_eq_iff] at h ⊢
-  obtain ⟨a1, a2, a3, a4, a5, a6⟩ := h
-  exact ⟨a1, a2, a3, a4, by show H1.unres - n1 = H2.unres - n1; rw [a5], a6⟩
+  obtain ⟨a1, a2, a3, a4, a5, a6, a7, a8⟩ := h
+  exact ⟨a1, a2, a3, a4, by show H1.unres - n1 = H2.unres - n1; rw [a5], a6, a7, a8⟩
 
 theorem bindLabel_resp (id toSec toOff : Nat) : Resp (fun h => h.bindLabel id toSec toOff) := by
   intro h
@@ -118,7 +119,7 @@ theorem asmBind_resp (c : Cur) (id : Nat) : Resp (fun h => asmBind h c id) := by
 
 theorem asmJmp_resp (c : Cur) (id : Nat) : Resp (fun h => asmJmp h c id) := by
   intro h
-  cases h with | mk a s l r u att lg tc ar =>
+  cases h with | mk a s l r u att lg tc ar bs ib =>
   simp only [asmJmp, Holder.obs]
   cases hl : l[id]? with
   | none => simp
@@ -149,7 +150,7 @@ theorem asmJmp_resp (c : Cur) (id : Nat) : Resp (fun h => asmJmp h c id) := by
 
 theorem asmElabelSz_resp (c : Cur) (id sz : Nat) : Resp (fun h => asmElabelSz h c id sz) := by
   intro h
-  cases h with | mk a s l r u att lg tc ar =>
+  cases h with | mk a s l r u att lg tc ar bs ib =>
   simp only [asmElabelSz, Holder.obs]
   cases hl : l[id]? with
   | none => simp
@@ -169,7 +170,7 @@ theorem asmElabel_resp (c : Cur) (id size : Nat) : Resp (fun h => asmElabel h c 
 
 theorem newLabel_resp (name : List Nat) : Resp (fun h => h.newLabel name) := by
   intro h
-  cases h with | mk a s l r u att lg tc ar =>
+  cases h with | mk a s l r u att lg tc ar bs ib =>
   simp only [Holder.newLabel, Holder.obs]
   by_cases h1 : name.isEmpty = true
   · simp [h1, Holder.alloc]
@@ -181,7 +182,7 @@ theorem newLabel_resp (name : List Nat) : Resp (fun h => h.newLabel name) := by
 
 theorem newSection_resp (name : List Nat) : Resp (fun h => h.newSection name) := by
   intro h
-  cases h with | mk a s l r u att lg tc ar =>
+  cases h with | mk a s l r u att lg tc ar bs ib =>
   simp only [Holder.newSection, Holder.obs]
   split <;> simp [Holder.alloc]
 
